@@ -129,7 +129,19 @@ func checkFileOrder(p *Program, r *Result) {
 				nChunkSort++
 				var cfn *ssa.Function = closureOf(args[1])
 				swapped := false
-				if cs := factoryCases(closureOfValue(args[1])); len(cs) > 0 {
+				if _, isPhi := args[1].(*ssa.Phi); isPhi {
+					// a comparator variable assigned per read order: take the FileOrder arm
+					cfn = nil
+					for _, c := range comparatorCases(ci) {
+						if c.order == 0 {
+							cfn, swapped = c.fn, c.swapped
+						}
+					}
+					if cfn == nil {
+						r.violated("C02.f", funcName(m), "chunk order in file order", p.pos(ci.Pos()), "no comparator is selected for FileOrder; in file order chunks would be visited in summary order")
+						continue
+					}
+				} else if cs := factoryCases(closureOfValue(args[1])); len(cs) > 0 {
 					cfn = nil
 					for _, c := range cs {
 						if c.order == 0 {
